@@ -61,4 +61,38 @@ def _(self, kwargs):
         ensures(implies(not given(kwargs, f), getattr(self, f) == old(getattr(self, f))), label="untouched/" + f)
         # the returned dictionary lists exactly the parameters that were set, with their new values
         ensures((f in result) == given(kwargs, f), label="reported/" + f)
+    # attributes that are not model parameters are never touched
+    ensures(self.name == old(self.name), label="untouched/name")
+    modifies(self)
+
+
+# C18: "... all other parameters keep their documented defaults": the constructor
+
+DEFAULT_BOOL = [("phase", True), ("sam_long_reads", False), ("male", False), ("display_format", False), ("debug_novel", False), ("indelpost", True)]
+DEFAULT_INT = [("min_quality", 10), ("min_mapq", 10), ("cn_max", 20), ("minor_phase_vars", 3000), ("max_minor_solutions", 1), ("vcf_sample_idx", 0)]
+DEFAULT_FLOAT = [("gap", 0.0), ("neutral_value", 0.0), ("threshold", 0.5), ("min_coverage", 2.0), ("cn_pce_penalty", 2.0), ("cn_diff", 10.0),
+                 ("cn_fit", 1.0), ("cn_parsimony", 0.5), ("cn_fusion_left", 0.5), ("cn_fusion_right", 0.25), ("major_novel", 21.0),
+                 ("minor_miss", 1.5), ("minor_add", 1.0), ("minor_phase", 0.4), ("min_avg_coverage", 2.0)]
+DEFAULT_STR = [("sam_mappy_preset", "map-hifi"), ("debug_probe", "")]
+
+
+@contract("aldy.profile.Profile.__init__", native=False)
+def _(self, name, cn_region, data, kwargs):
+    types(name="str", cn_region="Optional[GRange]", data="Optional[Dict[str, Dict[str, List[float]]]]",
+          kwargs="Dict[str, Union[None, bool, int, float, str]]")
+    requires("name" not in kwargs, "cn_region" not in kwargs, "data" not in kwargs, "cn_solution" not in kwargs)
+    raises(AldyException, when=malformed(kwargs))
+    # C18: a parameter that is not given keeps its documented default (the documented values, transcribed from the
+    # parameter documentation of aldy/profile.py) ...
+    for f, dv in DEFAULT_BOOL + DEFAULT_INT + DEFAULT_FLOAT + DEFAULT_STR:
+        ensures(implies(not given(kwargs, f), getattr(self, f) == dv), label="default/" + f)
+    # ... and a given one takes the given value with the documented type (as in Profile.update)
+    for f in BOOL_PARAMS:
+        ensures(implies(given(kwargs, f) and bool_true(kwargs[f]), getattr(self, f) == True), label="bool-true/" + f)
+        ensures(implies(given(kwargs, f) and bool_false(kwargs[f]), getattr(self, f) == False), label="bool-false/" + f)
+    for f in INT_PARAMS:
+        ensures(implies(given(kwargs, f), getattr(self, f) == int(kwargs[f])), label="int/" + f)
+    for f in FLOAT_PARAMS:
+        ensures(implies(given(kwargs, f), getattr(self, f) == float(kwargs[f])), label="float/" + f)
+    ensures(self.name == name, label="name")
     modifies(self)
